@@ -48,6 +48,7 @@ FUNC_PROPS = {
     'LanguageGraph.get_association_by_fields_and_assets': ('C15', 'C18', 'C19'),      # used by the securiCAD loader
     'LanguageGraph._get_variable_for_asset_type_by_name': ('C01', 'C03'),
     'LanguageGraph._get_associations_for_asset_type': ('C15', 'C03'),
+    'LanguageGraph.from_mal_spec': ('C15', 'C04', 'C17'),       # the entry point C04 / C17 observe the compiler through
 }
 
 ALL = tuple(f'C{i:02d}' for i in range(1, 20))
